@@ -34,6 +34,7 @@ double vf_angle(const char * n, double, double) { return vf_f64(n); }
 double vf_pi() { return M_PI; }
 int64_t vf_enum(int64_t v) { return v; }
 bool vf_symbolic() { return false; }
+double vf_havoc(int64_t) { return std::nan(""); }
 bool vf_near(double a, double b, double tol)
 {
   double m = std::fmax(1.0, std::fmax(std::fabs(a), std::fabs(b)));
